@@ -1,4 +1,5 @@
 import DvidModel.Model.Ids
+import DvidModel.Gen.Fixes
 import DvidModel.Props.C07
 /-
   C12 — Server-issued identifiers are unique and only move forward.
@@ -284,5 +285,83 @@ theorem version_ids_fresh (rs : List Manager.Req) :
 example : (Mut.run 1000 (Mut.init 1000 0)
     ((List.replicate 99 MutEv.alloc) ++ [.crashInAlloc, .alloc, .restart, .alloc])).getLast? = some 1200 := by
   decide
+
+/-! ### Stored counters that lag behind the ids in use
+
+`putNewIDs` stores the three id counters outside the id mutex, so with concurrent requests (or a crash between
+two metadata writes) the stored value can be older than the ids already handed out.  What keeps ids unique then
+is the start-up repair (`loadMetadata`: version ids and repo ids) and, for instance ids, the re-draw in
+`newInstanceID` while the drawn id belongs to a live instance.  Both shapes are regenerated from the source. -/
+
+def sup : List Nat → Nat
+  | [] => 0
+  | x :: xs => max x (sup xs)
+
+theorem le_sup {x : Nat} {l : List Nat} (h : x ∈ l) : x ≤ sup l := by
+  induction l with
+  | nil => cases h
+  | cons y ys ih =>
+    simp only [sup]
+    rcases List.mem_cons.mp h with rfl | h'
+    · exact Nat.le_max_left _ _
+    · exact Nat.le_trans (ih h') (Nat.le_max_right _ _)
+
+/-- `loadMetadata`: the counter read from the store, raised above every stored id when the repair is present -/
+def loadCounter (repair : Bool) (stored : Nat) (ids : List Nat) : Nat :=
+  if repair then ids.foldl (fun c v => if v ≥ c then v + 1 else c) stored else stored
+
+theorem foldl_repair_ge (ids : List Nat) (c : Nat) :
+    c ≤ ids.foldl (fun c v => if v ≥ c then v + 1 else c) c ∧
+    ∀ v ∈ ids, v < ids.foldl (fun c v => if v ≥ c then v + 1 else c) c := by
+  induction ids generalizing c with
+  | nil => exact ⟨Nat.le_refl _, fun _ h => by cases h⟩
+  | cons x xs ih =>
+    simp only [List.foldl_cons]
+    have h1 := ih (if x ≥ c then x + 1 else c)
+    refine ⟨?_, ?_⟩
+    · refine Nat.le_trans ?_ h1.1
+      split <;> omega
+    · intro v hv
+      rcases List.mem_cons.mp hv with rfl | hv'
+      · refine Nat.lt_of_lt_of_le ?_ h1.1
+        split <;> omega
+      · exact h1.2 v hv'
+
+/-- after start-up the repo id counter (and the version id counter) is above every stored id, however far the
+    stored counter lagged: the next id issued is new -/
+theorem reload_counter_above_stored (stored : Nat) (ids : List Nat) :
+    ∀ v ∈ ids, v < loadCounter Gen.startupRepairsRepoCounter stored ids := by
+  have hg : Gen.startupRepairsRepoCounter = true := by decide
+  rw [hg]; exact (foldl_repair_ge ids stored).2
+
+/-- without the repair a lagging counter re-issues an id in use (the defect fixed in 1f54ba4) -/
+example : ¬ ∀ v ∈ [1, 2], v < loadCounter false 2 [1, 2] := by decide
+
+/-- `newInstanceID`, sequential generator: draw, and draw again while the id belongs to a live instance -/
+def drawInstance (skip : Bool) (live : List Nat) : Nat → Nat → Nat
+  | ctr, 0 => ctr
+  | ctr, fuel + 1 => if skip && live.contains ctr then drawInstance skip live (ctr + 1) fuel else ctr
+
+theorem drawInstance_fresh (live : List Nat) (ctr fuel : Nat) (hf : sup live + 1 ≤ ctr + fuel) :
+    drawInstance Gen.newInstanceIdSkipsLiveIds live ctr fuel ∉ live := by
+  have hg : Gen.newInstanceIdSkipsLiveIds = true := by decide
+  rw [hg]
+  induction fuel generalizing ctr with
+  | zero =>
+    intro hm
+    have := le_sup hm
+    simp only [drawInstance] at this
+    omega
+  | succ n ih =>
+    simp only [drawInstance, Bool.true_and]
+    by_cases hc : live.contains ctr = true
+    · rw [if_pos hc]; exact ih (ctr + 1) (by omega)
+    · rw [if_neg hc]
+      intro hm
+      exact hc (List.contains_iff_mem.mpr hm)
+
+/-- without the re-draw a lagging counter hands out a live instance's id (what the seeded change C06-6 does) -/
+example : drawInstance false [1, 2] 1 5 ∈ [1, 2] := by decide
+example : drawInstance true [1, 2] 1 5 = 3 := by decide
 
 end Dvid.Props.C12
